@@ -245,6 +245,13 @@ type GVerTwoDataTwoPtr struct {
 	Ptr1 *GVerOneData
 	Ptr2 GVerOneData
 }
+// GXPtrs is mapped onto two different schemas (VerTwoPtr: ordinals 0,1;
+// VerTwoDataTwoPtr: ordinals 2,3) within one process: a Go type is not tied to
+// one schema (seeded defect C19-5: field mapping cached per Go type).
+type GXPtrs struct {
+	Ptr1 *GVerOneData
+	Ptr2 *GVerOneData
+}
 type GVerTwoTwoPlus struct {
 	Val  int16
 	Duo  int64
@@ -565,6 +572,11 @@ func init() {
 	add("GVerTwoData", GVerTwoData{}, "VerTwoData", air.VerTwoData_TypeID, sz(16, 0), 1, false)
 	add("GVerTwoDataTwoPtr", GVerTwoDataTwoPtr{}, "VerTwoDataTwoPtr", air.VerTwoDataTwoPtr_TypeID, sz(16, 2), 2, false)
 	add("GVerTwoTwoPlus", GVerTwoTwoPlus{}, "VerTwoTwoPlus", air.VerTwoTwoPlus_TypeID, sz(24, 3), 3, false)
+	// one Go type on several schemas
+	add("GXPtrs@VerTwoPtr", GXPtrs{}, "VerTwoPtr", air.VerTwoPtr_TypeID, sz(0, 2), 2, false)
+	add("GXPtrs@VerTwoDataTwoPtr", GXPtrs{}, "VerTwoDataTwoPtr", air.VerTwoDataTwoPtr_TypeID, sz(16, 2), 2, false)
+	add("GVerOneData@VerTwoData", GVerOneData{}, "VerTwoData", air.VerTwoData_TypeID, sz(16, 0), 1, false)
+	add("GVerTwoData@VerTwoTwoPlus", GVerTwoData{}, "VerTwoTwoPlus", air.VerTwoTwoPlus_TypeID, sz(24, 3), 1, false)
 
 	add("EOne", EOne{}, "VerOneData", air.VerOneData_TypeID, sz(8, 0), 1, true)
 	add("EOuterWins", EOuterWins{}, "VerOneData", air.VerOneData_TypeID, sz(8, 0), 1, true)
